@@ -9,11 +9,13 @@ import (
 	"os"
 	"runtime"
 	"sort"
+	"strings"
 	"sync"
 	"time"
 
 	"github.com/goatcms/goatcore/app/modules/commonm/commservices"
 	"github.com/goatcms/goatcore/app/modules/commonm/commservices/mutex"
+	"verifharness/pipx"
 )
 
 func init() {
@@ -269,4 +271,112 @@ func cmdLockTrace(args []string) error {
 	b, _ := json.Marshal(map[string]interface{}{"rounds": *n, "hung": hung})
 	fmt.Println(string(b))
 	return nil
+}
+
+func init() { commands["locklists"] = cmdLockLists }
+
+// locklists: every pair of --rlock / --wlock lists of LockLists.tla given to a real `pip:run` (one application per
+// case, through its terminal); the locks the runner takes around the body (observed at the lock.got hook of the
+// shared mutex) must be exactly the specified ones: each name once, ascending, for writing iff it is in the write list.
+func cmdLockLists(args []string) error {
+	fl := flag.NewFlagSet("locklists", flag.ExitOnError)
+	in := fl.String("in", "", "TLC output")
+	fl.Parse(args)
+	f, err := os.Open(*in)
+	if err != nil {
+		return err
+	}
+	defer f.Close()
+	byKey := map[string]int{}
+	examples := map[string][]map[string]string{}
+	executed := 0
+	var samples []interface{}
+	add := func(k, op, what string) {
+		byKey[k]++
+		if len(examples[k]) < 3 {
+			examples[k] = append(examples[k], map[string]string{"key": k, "op": op, "backend": "pip:run", "what": what})
+		}
+	}
+	sc := bufio.NewScanner(f)
+	sc.Buffer(make([]byte, 1<<20), 1<<24)
+	for sc.Scan() {
+		line := sc.Text()
+		if !strings.Contains(line, "\\\"k\\\":\\\"locklist\\\"") {
+			continue
+		}
+		var inner string
+		if err := json.Unmarshal([]byte(line), &inner); err != nil {
+			return err
+		}
+		var c struct {
+			RL       []string `json:"rl"`
+			WL       []string `json:"wl"`
+			Expected []struct {
+				Name string `json:"name"`
+				Mode string `json:"mode"`
+			} `json:"expected"`
+		}
+		if err := json.Unmarshal([]byte(inner), &c); err != nil {
+			return fmt.Errorf("parse %s: %v", inner, err)
+		}
+		executed++
+		script := "pip:run --name=t --silent=false"
+		if len(c.RL) > 0 {
+			script += " --rlock=" + strings.Join(c.RL, ",")
+		}
+		if len(c.WL) > 0 {
+			script += " --wlock=" + strings.Join(c.WL, ",")
+		}
+		script += " --body=\"probe --id=p1\"\n"
+		var log strings.Builder
+		wd, err := pipx.NewWorld(&log, script, []string{"appname", "terminal", "--strict=true", "--silent=true"})
+		if err != nil {
+			return err
+		}
+		var mu sync.Mutex
+		var got []string
+		mutex.VerifHook = func(site, name string, write bool) {
+			if site == "lock.got" {
+				mu.Lock()
+				m := "R"
+				if write {
+					m = "W"
+				}
+				// the names carry the task's lock namespace as a prefix: keep the last segment
+				if i := strings.LastIndex(name, ":"); i >= 0 {
+					name = name[i+1:]
+				}
+				got = append(got, name+":"+m)
+				mu.Unlock()
+			}
+		}
+		done := make(chan error, 1)
+		go func() { done <- wd.Boot.Run() }()
+		select {
+		case err := <-done:
+			if err != nil {
+				add("run-error", script, err.Error())
+			}
+		case <-time.After(10 * time.Second):
+			mutex.VerifHook = nil
+			add("hang", script, "pip:run did not finish")
+			continue
+		}
+		mutex.VerifHook = nil
+		var want []string
+		for _, e := range c.Expected {
+			want = append(want, e.Name+":"+e.Mode)
+		}
+		sort.Strings(want)
+		if len(samples) < 2 && len(want) >= 2 {
+			samples = append(samples, map[string]interface{}{"script": strings.TrimSpace(script), "locks": got})
+		}
+		if strings.Join(got, " ") != strings.Join(want, " ") {
+			add("lock-map", strings.TrimSpace(script), fmt.Sprintf("the runner took %v around the body, specification %v (ascending, each name once, W iff in the write list)", got, want))
+		}
+		if !strings.Contains(log.String(), "\"id\":\"p1\"") {
+			add("body-not-run", strings.TrimSpace(script), "the body did not run")
+		}
+	}
+	return finish(executed, byKey, examples, samples)
 }
